@@ -105,6 +105,16 @@ def check_key(ctx, key, parts, jh, light=False):
                 "C18.hashed-java-colocation/" + name,
                 "partition(%r, %r) = %r, Java client selects %r" % (form, parts, got, want_p),
             )
+        # the list passed to the call is the one that counts (the producer builds the partitioner once per topic and passes the
+        # current partition list on every call): an instance built when the topic had more / fewer partitions must agree
+        for ctor in (parts + [max(parts) + 1], parts[:-1] or [parts[0], parts[0] + 1, parts[0] + 2]):
+            try:
+                got3 = HashedPartitioner("t", ctor).partition(form, parts)
+            except Exception as e:  # noqa - a valid key and a non-empty list: raising is not "returns a member of the list"
+                got3 = "raised %r" % (e,)
+            if got3 != want_p:
+                ctx.flag("C18.hashed-java-colocation", "C18.hashed-java-colocation/list-changed-since-construction/" + name,
+                         "HashedPartitioner built for %r: partition(%r, %r) = %r, Java client selects %r" % (ctor, form, parts, got3, want_p))
         if not light:
             p2 = HashedPartitioner("other", list(parts))
             again = (p1.partition(form, parts), p2.partition(form, list(parts)))
